@@ -117,9 +117,35 @@ static std::string digest_map_lookups(uint64_t idx) {
     for (size_t q = 0; q < pool.size(); q++) {
       auto it = doc.FindMember(StringView(pool[q].data(), pool[q].size()));
       d += it == doc.MemberEnd() ? "." : std::string(1, (char)('A' + (it - doc.MemberBegin())));
+      auto it2 = doc.FindMember(pool[q].data(), pool[q].size());  // the pointer + length overload has its own comparison kernel
+      if (it2 != it) d += it2 == doc.MemberEnd() ? "(.)" : "(" + std::string(1, (char)('A' + (it2 - doc.MemberBegin()))) + ")";
     }
   }
   return d + " dump=" + doc.Dump();
+}
+// ML: LONG names: two members whose names of length L differ in one byte at position p, for every p; the second is
+// looked up through both FindMember overloads, without and with the lookup map
+static std::string digest_long_names(uint64_t idx) {
+  const unsigned L = (unsigned)idx + 33;
+  std::string d = "LONG L=" + std::to_string(L) + " ";
+  for (unsigned p = 0; p < L; p++) {
+    std::string a(L, 'm'), b;
+    for (unsigned k = 0; k < L; k++) a[k] = (char)('a' + (k * 5) % 23);
+    b = a;
+    b[p] = (char)(b[p] ^ 0x01);
+    Document doc;
+    auto& al = doc.GetAllocator();
+    doc.SetObject();
+    doc.AddMember(a, Node(0), al, true);
+    doc.AddMember(b, Node(1), al, true);
+    auto x = [&](Document::MemberIterator it) { return it == doc.MemberEnd() ? '.' : (char)('A' + (it - doc.MemberBegin())); };
+    d += x(doc.FindMember(b.data(), b.size()));
+    d += x(doc.FindMember(StringView(b.data(), b.size())));
+    doc.CreateMap(al);
+    d += x(doc.FindMember(b.data(), b.size()));
+    d += doc.HasMember(StringView(b.data(), b.size())) ? 'h' : '-';
+  }
+  return d;
 }
 static std::string digest_string_node(const std::string& bytes) {
   Document d;
@@ -226,6 +252,19 @@ int main(int argc, char** argv) {
     };
     tf.push_back(m);
   }
+  {
+    fam::TextFamily m;
+    m.meta.name = "ML_long_name_lookups";
+    m.meta.count = 200 - 33 + 1;
+    m.meta.group = "ML";
+    m.meta.chunk = 4;
+    m.meta.rule = "two members whose names of length L (every L in 33..200) differ in one byte at position p (every p): the second looked up through FindMember(ptr,len), FindMember(view), with the lookup map, HasMember";
+    m.gen = [](uint64_t idx, std::string& out) {
+      out = std::to_string(idx);
+      return true;
+    };
+    tf.push_back(m);
+  }
   // paths for the on-demand part
   std::vector<std::vector<ref::Step>> paths;
   {
@@ -274,7 +313,7 @@ int main(int argc, char** argv) {
     }
     ctx.eval();
     ctx.nontriv();
-    std::string d = f.name[0] == 'Q' ? digest_string_node(text) : f.name[0] == 'M' ? digest_map_lookups(idx) : digest_text(text, paths, jps);
+    std::string d = f.name[0] == 'Q' ? digest_string_node(text) : f.name[0] == 'M' ? (f.name[1] == 'L' ? digest_long_names(idx) : digest_map_lookups(idx)) : digest_text(text, paths, jps);
     if (ctx.replay) {
       printf("DIGEST %s\n", vr::jstr(d).c_str());
       return;
